@@ -33,6 +33,7 @@ import (
 
 	"github.com/codenotary/immudb/embedded/appendable"
 	"github.com/codenotary/immudb/embedded/appendable/fileutils"
+	"github.com/codenotary/immudb/embedded/verifhook"
 )
 
 var ErrorPathIsNotADirectory = errors.New("singleapp: path is not a directory")
@@ -169,6 +170,9 @@ func Open(fileName string, opts *Options) (*AppendableFile, error) {
 		err = fileutils.SyncDir(filepath.Dir(fileName))
 		if err != nil {
 			return nil, err
+		}
+		if verifhook.On {
+			verifhook.Emit("FCreate", fileName)
 		}
 
 		preallocSize = opts.preallocSize
@@ -649,6 +653,9 @@ func (aof *AppendableFile) flush() error {
 	}
 
 	n, err := aof.f.Write(aof.writeBuffer[aof.wbufFlushedOffset:aof.wbufUnwrittenOffset])
+	if verifhook.On {
+		verifhook.Emit("FWrite", aof.f.Name(), aof.fileBaseOffset+aof.fileOffset, aof.writeBuffer[aof.wbufFlushedOffset:aof.wbufFlushedOffset+n])
+	}
 
 	aof.fileOffset += int64(n)
 	aof.wbufFlushedOffset += n
@@ -691,6 +698,9 @@ func (aof *AppendableFile) sync() error {
 		err = aof.f.Sync()
 	} else {
 		err = fileutils.Fdatasync(aof.f)
+	}
+	if verifhook.On {
+		verifhook.Emit("FSync", aof.f.Name(), err == nil)
 	}
 
 	if !aof.retryableSync {
